@@ -1328,3 +1328,296 @@ Lemma proxy_accept_own x n x' :
   pwf (x_clients x) -> proxy_accept x n = (x', true) ->
   exists c, x_clients x !! hash (l_dev n) = Some c /\ c_id c = l_dev n.
 Proof. intros W H. apply proxy_accept_spec in H as (_ & _ & C & _); auto. Qed.
+
+(* ------------------------------------------------------------------------- *)
+(* 7. Channels: the tag routing of a connection                                *)
+
+(* a session's queue is redirected only into the Channel of a host that is running one and whose
+   conn.subs (= the registered tags of its LAST Channel packet) holds the session's key *)
+Definition routes_current (w : cworld) : Prop :=
+  forall k hk, w_route w !! k = Some hk -> exists l, w_subs w !! hk = Some l /\ In k l.
+
+Lemma routes_current_cw0 : routes_current cw0.
+Proof. intros k hk H. cbn in H. rewrite lookup_empty in H. discriminate. Qed.
+
+Lemma mark_tags_sound t hid tags : forall marked m ok,
+  mark_tags t hid tags marked = (m, ok) ->
+  forall k, In k m -> In k marked \/ (In k tags /\ tag_valid t hid k = true /\ k <> 0).
+Proof.
+  induction tags as [|x r IH]; intros marked m ok H k I; cbn [mark_tags] in H.
+  - injection H as <- <-. auto.
+  - destruct (x =? 0) eqn:Z0. { injection H as <- <-. auto. }
+    destruct (existsb (Z.eqb x) marked).
+    { destruct (IH _ _ _ H k I) as [A|(A & B & C)]; [auto|]. right. split; [right; exact A|auto]. }
+    destruct (tag_valid t hid x) eqn:V.
+    + destruct (IH _ _ _ H k I) as [A|(A & B & C)].
+      * apply in_app_or in A as [A|[<-|[]]]; [auto|]. right. split; [left; reflexivity|]. split; [exact V|].
+        intros ->. discriminate.
+      * right. split; [right; exact A|auto].
+    + destruct (IH _ _ _ H k I) as [A|(A & B & C)]; [auto|]. right. split; [right; exact A|auto].
+Qed.
+
+Lemma mark_tags_mono t hid tags : forall marked m ok,
+  mark_tags t hid tags marked = (m, ok) -> forall k, In k marked -> In k m.
+Proof.
+  induction tags as [|x r IH]; intros marked m ok H k I; cbn [mark_tags] in H.
+  - injection H as <- <-. exact I.
+  - destruct (x =? 0). { injection H as <- <-. exact I. }
+    destruct (existsb (Z.eqb x) marked); [eapply IH; eauto|].
+    destruct (tag_valid t hid x); eapply IH; eauto. apply in_or_app. auto.
+Qed.
+
+(* every registered tag of the list (other than the host) is marked *)
+Lemma mark_tags_complete t hid tags : forall marked m,
+  mark_tags t hid tags marked = (m, true) ->
+  forall k, In k tags -> tag_valid t hid k = true -> In k m.
+Proof.
+  induction tags as [|x r IH]; intros marked m H k I V; cbn [mark_tags] in H; [destruct I|].
+  destruct (x =? 0). { discriminate. }
+  destruct I as [->|I].
+  - destruct (existsb (Z.eqb k) marked) eqn:E.
+    + eapply mark_tags_mono; [exact H|]. apply existsb_exists in E as (y & Iy & Ey).
+      apply Z.eqb_eq in Ey. subst y. exact Iy.
+    + rewrite V in H. eapply mark_tags_mono; [exact H|]. apply in_or_app. right. left. reflexivity.
+  - destruct (existsb (Z.eqb x) marked); [eapply IH; eauto|].
+    destruct (tag_valid t hid x); eapply IH; eauto.
+Qed.
+
+Lemma clear_all ks : forall w,
+  let w' := fold_left client_clear ks w in
+  w_tbl w' = w_tbl w /\ w_subs w' = w_subs w /\
+  forall k, w_route w' !! k = if existsb (Z.eqb k) ks then None else w_route w !! k.
+Proof.
+  induction ks as [|i ks IH]; intros w; cbn [fold_left existsb].
+  - auto.
+  - destruct (IH (client_clear w i)) as (A & B & C). cbn zeta in *. rewrite A, B. cbn [client_clear w_tbl w_subs w_route] in *.
+    split; [reflexivity|]. split; [reflexivity|]. intros k. rewrite C.
+    destruct (k =? i) eqn:E; cbn [orb].
+    + apply Z.eqb_eq in E. subst i. rewrite lookup_delete. destruct (existsb (Z.eqb k) ks); reflexivity.
+    + apply Z.eqb_neq in E. rewrite lookup_delete_ne by auto. reflexivity.
+Qed.
+
+Lemma client_set_keys hk w i k : is_Some (w_tbl (client_set hk w i) !! k) <-> is_Some (w_tbl w !! k).
+Proof.
+  unfold client_set. destruct (w_tbl w !! i) as [v|] eqn:L; [|reflexivity].
+  destruct (w_route w !! i); [reflexivity|]. cbn [w_tbl].
+  assert (A : is_Some ((<[i := set_out v []]> (w_tbl w) : table) !! k) <-> is_Some (w_tbl w !! k)).
+  { unfold table in *. destruct (decide (i = k)) as [->|N].
+    - rewrite lookup_insert, L. split; eauto.
+    - rewrite lookup_insert_ne by exact N. reflexivity. }
+  destruct ((<[i := set_out v []]> (w_tbl w) : table) !! hk) as [h|] eqn:LH; [|exact A].
+  rewrite <- A. unfold table in *. destruct (decide (hk = k)) as [->|N].
+  - rewrite lookup_insert, LH. split; eauto.
+  - rewrite lookup_insert_ne by exact N. reflexivity.
+Qed.
+
+Lemma set_all hk ks : forall w,
+  let w' := fold_left (client_set hk) ks w in
+  w_subs w' = w_subs w /\
+  (forall k, is_Some (w_tbl w' !! k) <-> is_Some (w_tbl w !! k)) /\
+  forall k, w_route w' !! k =
+    match w_route w !! k with
+    | Some h => Some h
+    | None => if existsb (Z.eqb k) ks && bool_decide (is_Some (w_tbl w !! k)) then Some hk else None
+    end.
+Proof.
+  induction ks as [|i ks IH]; intros w; cbn [fold_left existsb].
+  - split; [reflexivity|]. split; [reflexivity|]. intros k. destruct (w_route w !! k); reflexivity.
+  - destruct (IH (client_set hk w i)) as (A & B & C). cbn zeta in *.
+    assert (S : w_subs (client_set hk w i) = w_subs w).
+    { unfold client_set. destruct (w_tbl w !! i); [|reflexivity]. destruct (w_route w !! i); reflexivity. }
+    split; [congruence|]. split. { intros k. rewrite B. apply client_set_keys. }
+    intros k. rewrite C. clear C.
+    assert (KK : bool_decide (is_Some (w_tbl (client_set hk w i) !! k)) = bool_decide (is_Some (w_tbl w !! k))).
+    { apply bool_decide_ext. apply client_set_keys. }
+    rewrite KK. clear KK.
+    unfold client_set. destruct (w_tbl w !! i) as [v|] eqn:L.
+    + destruct (w_route w !! i) as [h0|] eqn:R.
+      * (* already routed: nothing changes *)
+        destruct (w_route w !! k) eqn:Rk; [reflexivity|].
+        destruct (k =? i) eqn:E; cbn [orb]; [|reflexivity].
+        apply Z.eqb_eq in E. subst i. congruence.
+      * cbn [w_route]. destruct (decide (i = k)) as [->|N].
+        -- rewrite lookup_insert, R, Z.eqb_refl. cbn [orb andb].
+           rewrite bool_decide_eq_true_2 by eauto. reflexivity.
+        -- rewrite lookup_insert_ne by exact N. destruct (w_route w !! k); [reflexivity|].
+           replace (k =? i) with false by (symmetry; apply Z.eqb_neq; auto). reflexivity.
+    + destruct (w_route w !! k) eqn:Rk; [reflexivity|].
+      destruct (k =? i) eqn:E; cbn [orb]; [|reflexivity].
+      apply Z.eqb_eq in E. subst i.
+      rewrite (bool_decide_eq_false_2 (is_Some (w_tbl w !! k))). 2:{ rewrite L. intros [? ?]. discriminate. }
+      rewrite andb_false_r. reflexivity.
+Qed.
+
+Lemma existsb_In k ks : existsb (Z.eqb k) ks = true <-> In k ks.
+Proof.
+  rewrite existsb_exists. split.
+  - intros (y & I & E). apply Z.eqb_eq in E. subst y. exact I.
+  - intros I. exists k. split; [exact I|apply Z.eqb_refl].
+Qed.
+
+(* conn.stop: nothing stays routed to the host, the other routes are still current *)
+Lemma chan_stop_spec w hk extra :
+  routes_current w ->
+  routes_current (chan_stop w hk extra) /\ (forall k, w_route (chan_stop w hk extra) !! k <> Some hk) /\
+  w_tbl (chan_stop w hk extra) = w_tbl w.
+Proof.
+  intros INV. unfold chan_stop.
+  destruct (clear_all (default [] (w_subs w !! hk) ++ extra) w) as (A & B & C). cbn zeta in *.
+  set (w1 := fold_left client_clear (default [] (w_subs w !! hk) ++ extra) w) in *.
+  assert (NO : forall k h, w_route w1 !! k = Some h -> w_route w !! k = Some h /\ h <> hk).
+  { intros k h H. rewrite C in H. destruct (existsb (Z.eqb k) (default [] (w_subs w !! hk) ++ extra)) eqn:E; [discriminate|].
+    split; [exact H|]. intros ->. destruct (INV _ _ H) as (l & L & I).
+    rewrite L in E. cbn in E. assert (existsb (Z.eqb k) (l ++ extra) = true); [|congruence].
+    apply existsb_In. apply in_or_app. auto. }
+  split; [|split].
+  - intros k h H. cbn [w_route w_subs] in *. destruct (NO _ _ H) as [H0 N].
+    destruct (INV _ _ H0) as (l & L & I). exists l. rewrite lookup_delete_ne by auto. rewrite B. auto.
+  - intros k H. cbn [w_route] in H. destruct (NO _ _ H) as [_ N]. congruence.
+  - exact A.
+Qed.
+
+(* conn.resolve(.., tags, true): afterwards conn.subs is exactly the marked keys of THIS list and a
+   session is routed to this host iff ... in particular only if its key is a registered tag of
+   THIS list; for the empty list nothing stays routed to the host *)
+Lemma chan_resolve_spec w hk hid tags w' :
+  chan_resolve w hk hid tags = (w', true) -> routes_current w ->
+  routes_current w' /\
+  w_subs w' !! hk = Some (mark_tags (w_tbl w) hid tags []).1 /\
+  (forall k, w_route w' !! k = Some hk -> In k tags /\ tag_valid (w_tbl w) hid k = true) /\
+  (forall k, In k tags -> tag_valid (w_tbl w) hid k = true ->
+             w_route w !! k = None \/ w_route w !! k = Some hk -> w_route w' !! k = Some hk) /\
+  (forall k h, h <> hk -> w_route w' !! k = Some h -> w_route w !! k = Some h).
+Proof.
+  unfold chan_resolve. intros H INV.
+  destruct (mark_tags (w_tbl w) hid tags []) as [marked ok] eqn:M. destruct ok; [|discriminate].
+  set (old := default [] (w_subs w !! hk)) in *.
+  set (cl := List.filter (fun k => negb (existsb (Z.eqb k) marked)) old) in *.
+  destruct (clear_all cl w) as (A1 & B1 & C1). cbn zeta in *.
+  set (w1 := fold_left client_clear cl w) in *.
+  destruct (set_all hk marked w1) as (B2 & K2 & C2). cbn zeta in *.
+  set (w2 := fold_left (client_set hk) marked w1) in *.
+  injection H as <-. cbn [w_route w_subs w_tbl fst].
+  assert (MS : forall k, In k marked -> In k tags /\ tag_valid (w_tbl w) hid k = true).
+  { intros k I. destruct (mark_tags_sound _ _ _ _ _ _ M k I) as [[]|(X & Y & _)]. auto. }
+  assert (R2 : forall k h, w_route w2 !! k = Some h ->
+               (w_route w !! k = Some h /\ existsb (Z.eqb k) cl = false) \/ (h = hk /\ In k marked)).
+  { intros k h H. rewrite C2, C1 in H. destruct (existsb (Z.eqb k) cl) eqn:E.
+    - destruct (existsb (Z.eqb k) marked && bool_decide (is_Some (w_tbl w1 !! k))) eqn:F; [|discriminate].
+      injection H as <-. right. split; [reflexivity|]. apply andb_true_iff in F as [F _]. apply existsb_In. exact F.
+    - destruct (w_route w !! k) as [h0|] eqn:R; [left; auto|].
+      destruct (existsb (Z.eqb k) marked && bool_decide (is_Some (w_tbl w1 !! k))) eqn:F; [|discriminate].
+      injection H as <-. right. split; [reflexivity|]. apply andb_true_iff in F as [F _]. apply existsb_In. exact F. }
+  assert (OLD : forall k, w_route w !! k = Some hk -> existsb (Z.eqb k) cl = false -> In k marked).
+  { intros k R E. destruct (INV _ _ R) as (l & L & I).
+    assert (IO : In k old) by (unfold old; rewrite L; exact I).
+    destruct (existsb (Z.eqb k) marked) eqn:F; [apply existsb_In; exact F|].
+    assert (existsb (Z.eqb k) cl = true); [|congruence]. apply existsb_In. unfold cl.
+    apply filter_In. split; [exact IO|]. rewrite F. reflexivity. }
+  unfold routes_current. cbn [w_route w_subs w_tbl].
+  split; [|split; [|split; [|split]]].
+  - intros k h H. destruct (R2 _ _ H) as [[R E]|[-> I]].
+    + destruct (decide (h = hk)) as [->|N].
+      * exists marked. rewrite lookup_insert. split; [reflexivity|]. apply OLD; assumption.
+      * destruct (INV _ _ R) as (l & L & I). exists l. rewrite lookup_insert_ne by auto. rewrite B2, B1. auto.
+    + exists marked. rewrite lookup_insert. auto.
+  - rewrite lookup_insert. reflexivity.
+  - intros k H. apply MS. destruct (R2 _ _ H) as [[R E]|[_ I]]; [apply OLD; assumption|exact I].
+  - intros k I V R. rewrite C2, C1.
+    assert (IM : In k marked) by (eapply mark_tags_complete; eauto).
+    assert (NC : existsb (Z.eqb k) cl = false).
+    { destruct (existsb (Z.eqb k) cl) eqn:E; [|reflexivity]. apply existsb_In in E. unfold cl in E.
+      apply filter_In in E as [_ E]. apply existsb_In in IM. rewrite IM in E. discriminate. }
+    rewrite NC. destruct R as [R|R]; rewrite R; [|reflexivity].
+    apply existsb_In in IM. rewrite IM. cbn [andb].
+    rewrite bool_decide_eq_true_2; [reflexivity|]. rewrite A1.
+    unfold tag_valid in V. destruct (w_tbl w !! k); [eauto|discriminate].
+  - intros k h N H. destruct (R2 _ _ H) as [[R _]|[-> _]]; [exact R|congruence].
+Qed.
+
+Lemma chan_resolve_err w hk hid tags w' :
+  chan_resolve w hk hid tags = (w', false) -> routes_current w ->
+  routes_current w' /\ forall k, w_route w' !! k <> Some hk.
+Proof.
+  unfold chan_resolve. intros H INV. destruct (mark_tags (w_tbl w) hid tags []) as [marked ok]. destruct ok; [discriminate|].
+  injection H as <-. destruct (chan_stop_spec w hk marked INV) as (A & B & _). auto.
+Qed.
+
+(* the empty tag list withdraws everything *)
+Lemma chan_resolve_empty w hk hid :
+  routes_current w ->
+  exists w', chan_resolve w hk hid [] = (w', true) /\ routes_current w' /\
+             w_subs w' !! hk = Some [] /\ forall k, w_route w' !! k <> Some hk.
+Proof.
+  intros INV. destruct (chan_resolve w hk hid []) as [w' ok] eqn:R.
+  assert (ok = true) as ->. { unfold chan_resolve in R. cbn [mark_tags] in R. injection R as _ <-. reflexivity. }
+  exists w'. split; [reflexivity|]. destruct (chan_resolve_spec _ _ _ _ _ R INV) as (A & B & C & _).
+  split; [exact A|]. split; [exact B|]. intros k H. destruct (C k H) as [[] _].
+Qed.
+
+Lemma cstep_routes_current w o : routes_current w -> routes_current (cstep w o).1.
+Proof.
+  intros INV. destruct o as [d j|d|d tags|d|d pid job|d]; cbn [cstep].
+  - destruct (chan_open_key w d); [exact INV|].
+    destruct (talk 0 (w_tbl w) (Single (Leaf d SvHello j BHello) [])) as [[t' e] r]. exact INV.
+  - destruct (server_session (w_tbl w) d); [|exact INV].
+    destruct (w_subs w !! hash d) eqn:S; [exact INV|]. cbn. intros k hk H. cbn in *.
+    destruct (INV _ _ H) as (l & L & I). exists l. split; [|exact I].
+    rewrite lookup_insert_ne; [exact L|]. intros <-. congruence.
+  - destruct (chan_open_key w d) as [hk|]; [|exact INV].
+    destruct (existsb (Z.eqb 0) tags). { cbn. apply chan_stop_spec. exact INV. }
+    destruct (chan_resolve w hk d tags) as [w' ok] eqn:R. cbn. destruct ok.
+    + apply (chan_resolve_spec _ _ _ _ _ R INV).
+    + apply (chan_resolve_err _ _ _ _ _ R INV).
+  - destruct (chan_open_key w d) as [hk|]; [|exact INV]. cbn. apply chan_stop_spec. exact INV.
+  - destruct (server_session (w_tbl w) d); exact INV.
+  - destruct (chan_open_key w d); [exact INV|].
+    destruct (talk 0 (w_tbl w) (Single (Leaf d 0 0 BEmpty) [])) as [[t' e] r]. exact INV.
+Qed.
+
+(* induction over the history: routing is always current *)
+Lemma crun_routes_current ops : forall w, routes_current w -> routes_current (crun w ops).
+Proof.
+  induction ops as [|o ops IH]; intros w INV; cbn [crun]; [exact INV|]. apply IH. apply cstep_routes_current. exact INV.
+Qed.
+
+(* where a packet queued for d lands: in d's own queue, or in the queue of the host whose running
+   Channel currently tags d; no other queue changes *)
+Lemma send_lands w d pid job :
+  routes_current w ->
+  exists q, (q = hash d \/ (w_route w !! hash d = Some q /\ exists l, w_subs w !! q = Some l /\ In (hash d) l)) /\
+            forall k, k <> q -> w_tbl (cstep w (KSend d pid job)).1 !! k = w_tbl w !! k.
+Proof.
+  intros INV. cbn [cstep]. destruct (server_session (w_tbl w) d) as [s|].
+  - destruct (w_route w !! hash d) as [hk|] eqn:R.
+    + exists hk. split; [right; split; [reflexivity|]; apply (INV _ _ R)|].
+      intros k N. cbn. unfold push_out. destruct (w_tbl w !! hk); [|reflexivity].
+      unfold table in *. rewrite lookup_insert_ne; auto.
+    + exists (hash d). split; [auto|]. intros k N. cbn. unfold push_out. destruct (w_tbl w !! hash d); [|reflexivity].
+      unfold table in *. rewrite lookup_insert_ne; auto.
+  - exists (hash d). split; [auto|]. reflexivity.
+Qed.
+
+(* a Channel packet of d with tag list tags, in any reachable state: what is routed to d afterwards *)
+Lemma channel_packet w d tags hk :
+  routes_current w -> chan_open_key w d = Some hk ->
+  let w' := (cstep w (KPkt d tags)).1 in
+  forall k, w_route w' !! k = Some hk -> In k tags /\ tag_valid (w_tbl w) d k = true.
+Proof.
+  intros INV O w' k. unfold w'. cbn [cstep]. rewrite O.
+  destruct (existsb (Z.eqb 0) tags). { cbn. intros H. exfalso. eapply (chan_stop_spec w hk [] INV); eauto. }
+  destruct (chan_resolve w hk d tags) as [w1 ok] eqn:R. cbn. destruct ok.
+  - apply (chan_resolve_spec _ _ _ _ _ R INV).
+  - intros H. exfalso. eapply (chan_resolve_err _ _ _ _ _ R INV); eauto.
+Qed.
+
+(* non-vacuity / the history of the seeded change: A tags C, then sends no tags, then C gets a packet *)
+Definition chan_demo : list cop :=
+  [ KReg idA 10; KReg idC 11; KPoll idA; KPoll idC; KOpen idA; KPkt idA [hash idC]; KSend idC 208 12;
+    KPkt idA []; KSend idC 209 13 ].
+Lemma chan_demo_run :
+  csnapshot (crun cw0 chan_demo) =
+    [ (152284485, idC, 0, [(idC, 209, 13)]); (827974963, idA, 0, [(idC, 208, 12)]) ] /\
+  csnapshot (crun cw0 (firstn 7 chan_demo)) =
+    [ (152284485, idC, 827974963, []); (827974963, idA, 0, [(idC, 208, 12)]) ].
+Proof. split; vm_compute; reflexivity. Qed.
